@@ -1,23 +1,313 @@
-import CentrifugeVerif.Proofs.Stream
+import CentrifugeVerif.Proofs.HistoryHubBroker
 /-!
 # C17 — Memory stream broker implements bounded-stream history semantics
-(first cut: stream level; the hub-level theorems follow)
+
+Statement: for any sequence of publish / history / remove-history calls (and sweeper wake-ups at
+arbitrary times), the in-memory broker behaves like a bounded append-only stream: offsets start
+at 1 and increase by one per stored publication, history returns the retained suffix filtered by
+since, limit and direction, the epoch changes only when the stream's metadata is discarded, and a
+removed or expired stream keeps its top offset and epoch.
+
+Model: `Model/Stream.lean` (memstream), `Model/HistoryHub.lean` (historyHub + MemoryBroker);
+specification: `Spec/AbsStream.lean`.  Everything below holds for **all** operation sequences and
+all clock values (no monotonicity assumption is needed for these statements).
 -/
-namespace CentrifugeVerif.MemStream
+namespace CentrifugeVerif.HistoryHub
+open CentrifugeVerif.MemStream CentrifugeVerif.AbsStream
 
-variable {α : Type}
+/-! ## stream level (`internal/memstream`) -/
 
-/-- `Add` keeps the contiguity invariant, assigns `top + 1`, keeps `min size (len+1)` items, same epoch. -/
-theorem c17_stream_add_inv (s : MStream α) (h : s.Inv) (v : α) (size ver : Nat) (ve : String) :
+/-- `Add` keeps the contiguity invariant (retained offsets = `(top − len, top]`), assigns `top + 1`,
+keeps `min size (len + 1)` items and the epoch. -/
+theorem stream_add_inv (s : MStream Pub) (h : s.Inv) (v : Pub) (size ver : Nat) (ve : String) :
     (s.add v size ver ve).1.Inv ∧ (s.add v size ver ve).2 = s.top + 1 ∧
       (s.add v size ver ve).1.top = s.top + 1 ∧
       (s.add v size ver ve).1.items.length = min size (s.items.length + 1) ∧
-      (s.add v size ver ve).1.epoch = s.epoch := stream_add_inv s h v size ver ve
+      (s.add v size ver ve).1.epoch = s.epoch := MemStream.stream_add_inv s h v size ver ve
 
-/-- `Get` is the filter `getSpec` of the retained items, for all arguments. -/
-theorem c17_get_spec (s : MStream α) (h : s.Inv) (offset : Nat) (useOffset : Bool) (limit : Int)
+/-- `Get` is the filter `getSpec` of the retained items — all useOffset × reverse × limit-sign
+combinations, index-miss fallbacks included. -/
+theorem get_spec (s : MStream Pub) (h : s.Inv) (offset : Nat) (useOffset : Bool) (limit : Int)
     (reverse : Bool) :
     s.get offset useOffset limit reverse = s.getSpec offset useOffset limit reverse :=
-  get_spec s h offset useOffset limit reverse
+  MemStream.get_spec s h offset useOffset limit reverse
 
-end CentrifugeVerif.MemStream
+/-! ## every reachable broker state is well-formed -/
+
+/-- for every operation sequence (any ops, any times): every stream satisfies the contiguity
+invariant, logs are never longer than `top`, epochs are pairwise distinct and were handed out -/
+theorem run_inv (metaTTL : Nat) (ops : List Op) : (run (Broker.init metaTTL) ops).hub.Inv :=
+  run_inv_from _ (init_inv metaTTL) ops
+
+/-! ## refinement to the bounded-log specification -/
+
+/-- how one broker operation and its output must relate two abstract states -/
+def Refines (a : Abs Pub) : Op → Out → Abs Pub → Prop
+  | .publish ch data o _, .pub po, a' =>
+    (po.suppress = .none ∧ o.history ∧ a' = (a.append ch ⟨data, o.version⟩ o.size).1 ∧
+        po.pos = (a.append ch ⟨data, o.version⟩ o.size).2) ∨
+      ((po.suppress ≠ .none ∨ ¬ o.history) ∧ a' = a)
+  | .history ch f _ _, .hist pubs pos, a' =>
+    a' = (a.read ch f).1 ∧ pos = (a.read ch f).2.2 ∧
+      (FilterOK (a.ensure ch).2.top f → pubs = (a.read ch f).2.1)
+  | .remove ch, .ok, a' => a' = a.clear ch
+  | .tick _, .ok, a' => Abs.Tick a a'
+  | _, _, _ => False
+
+theorem read_empty (c : AbsChan Pub) (f : Filter) (h : c.log = []) : c.read f = [] := by
+  unfold AbsChan.read AbsChan.entries
+  rw [h]
+  cases f.since <;> simp <;> (try split) <;> simp [takeLim_nil]
+
+/-- **historyHub_refines_absStream**: every operation of the memory broker, from every well-formed
+state, is a step of the bounded-log specification with the same output: a stored publish is an
+`append` returning the specification's position, any other publish changes nothing; a history call
+is a `read` (creating a missing channel with a fresh epoch) returning the specification's position
+and — on the `FilterOK` domain — exactly the specification's publications; remove is `clear`;
+a sweeper wake-up keeps, clears or drops each channel. -/
+theorem historyHub_refines_absStream (b : Broker) (hi : b.hub.Inv) (op : Op) :
+    Refines b.hub.abs op (step b op).2 (step b op).1.hub.abs := by
+  cases op with
+  | publish ch data o now =>
+    simp only [step, Refines]
+    rcases publish_cases b ch data o now with ⟨p, h⟩ | ⟨hm, hh, hs⟩ | ⟨hm, hh, hs⟩ | ⟨hm, hh⟩
+    · rw [publish_hit b ch data o now p h]; right; simp
+    · rw [publish_skip b ch data o now hm hh hs]; right
+      exact ⟨by simp, (add_skip_spec _ ch _ o _ hs).1⟩
+    · rw [publish_store b ch data o now hm hh hs]; left
+      obtain ⟨h1, h2⟩ := add_store_spec _ ch _ o _ hs
+      exact ⟨rfl, hh, by simpa using h1, h2⟩
+    · rw [publish_nohistory b ch data o now hm hh]; right; simp [hh]
+  | history ch f m now =>
+    simp only [step, Refines, Broker.history]
+    obtain ⟨h1, h2⟩ := get_abs b.hub ch f m (now / 1000)
+    refine ⟨h1, h2, ?_⟩
+    intro hf
+    cases hst : (b.hub.chans ch).stream with
+    | some s =>
+      have hc : b.hub.abs.chans ch = some (absS s) := by simp [Hub.abs, hst]
+      have he : b.hub.abs.ensure ch = (b.hub.abs, absS s) := by unfold Abs.ensure; simp [hc]
+      rw [he] at hf
+      rw [get_pubs b.hub ch f m _ s hst (hi.1 _ _ hst) hf]
+      unfold Abs.read; rw [he]
+    | none =>
+      have hc : b.hub.abs.chans ch = none := by simp [Hub.abs, hst]
+      have : (b.hub.get ch f m (now / 1000)).2.1 = [] := by
+        unfold Hub.get Hub.getCore
+        simp [touchMeta_stream, hst]
+      rw [this]
+      unfold Abs.read
+      simp only
+      rw [read_empty]
+      rw [((ensure_spec _ hi.2 ch).2.2.2.2.1 hc)]
+  | remove ch => simp only [step, Refines, Broker.removeHistory]; exact remove_abs _ _
+  | tick n =>
+    simp only [step, Refines, Broker.tick, Broker.sweepCache]
+    exact tick_abs _ _
+
+/-! ## the statement's clauses, in concrete terms -/
+
+/-- **offsets start at 1 and increase by one per stored publication**: a stored publish returns
+`top + 1` in the stream's epoch, or offset 1 in a fresh epoch when the channel has no stream. -/
+theorem stored_publish_offset (b : Broker) (ch data : String) (o : PubOpts) (now : Nat)
+    (hs : (b.publish ch data o now).2.suppress = .none) (hh : o.history) :
+    (b.publish ch data o now).2.pos =
+      match (b.hub.chans ch).stream with
+      | some s => ⟨s.top + 1, s.epoch⟩
+      | none => ⟨1, b.hub.nextEpoch⟩ := by
+  rcases publish_cases b ch data o now with ⟨p, h⟩ | ⟨hm, hh', hsk⟩ | ⟨hm, hh', hsk⟩ | ⟨hm, hh'⟩
+  · rw [publish_hit b ch data o now p h] at hs; cases hs
+  · rw [publish_skip b ch data o now hm hh' hsk] at hs; cases hs
+  · rw [publish_store b ch data o now hm hh' hsk]
+    simp only
+    rw [add_eq] at hsk ⊢
+    cases hst : (b.hub.chans ch).stream with
+    | some s =>
+      have hp := preAdd_stream_some b.hub ch o (now / 1000) s hst
+      by_cases hv : VersionSkip o s
+      · rw [addCore_skip _ ch _ o _ s hp hv] at hsk; cases hsk
+      · rw [addCore_store _ ch _ o _ s hp hv]
+    | none =>
+      have hp := preAdd_stream_none b.hub ch o (now / 1000) hst
+      by_cases hd : o.useDelta
+      · simp only [hd, if_true] at hp
+        have hv : ¬ VersionSkip o (MStream.new b.hub.nextEpoch) := by
+          unfold VersionSkip MStream.new; simp; omega
+        rw [addCore_store _ ch _ o _ _ hp hv]; rfl
+      · simp only [hd, Bool.false_eq_true, if_false] at hp
+        rw [addCore_new _ ch _ o _ hp]
+        have : (b.hub.preAdd ch o (now / 1000)).nextEpoch = b.hub.nextEpoch := by
+          unfold Hub.preAdd Hub.deltaRead; simp [hd]
+        rw [this]
+  · exact absurd hh hh'
+
+/-- **history = the retained suffix filtered by since, limit and direction** (partial: on the
+`FilterOK` domain).  Full statement — without `hf` — is false on the code: see the two
+counter-witnesses below (forward since 2^64−1, reverse since beyond top+1). -/
+theorem history_eq_spec_partial (b : Broker) (hi : b.hub.Inv) (ch : String) (f : Filter) (m now : Nat)
+    (s : MStream Pub) (hst : (b.hub.chans ch).stream = some s) (hf : FilterOK s.top f) :
+    (b.history ch f m now).2 = ((absS s).read f, ⟨s.top, s.epoch⟩) ∧ (absS s).entries = s.items := by
+  refine ⟨?_, entries_absS s (hi.1 _ _ hst)⟩
+  have h1 := get_pubs b.hub ch f m (now / 1000) s hst (hi.1 _ _ hst) hf
+  have h2 := (get_abs b.hub ch f m (now / 1000)).2
+  have hc : b.hub.abs.chans ch = some (absS s) := by simp [Hub.abs, hst]
+  have he : b.hub.abs.ensure ch = (b.hub.abs, absS s) := by unfold Abs.ensure; simp [hc]
+  rw [he] at h2
+  unfold Broker.history
+  exact Prod.ext h1 h2
+
+/-- the same for a channel without stream: nothing is returned, at offset 0 of a fresh epoch -/
+theorem history_no_stream (b : Broker) (ch : String) (f : Filter) (m now : Nat)
+    (hst : (b.hub.chans ch).stream = none) :
+    (b.history ch f m now).2 = ([], ⟨0, b.hub.nextEpoch⟩) := by
+  unfold Broker.history Hub.get Hub.getCore
+  simp [touchMeta_stream, hst, MStream.new]
+
+/-- **a removed stream keeps its top offset and epoch** (and its version pair) -/
+theorem remove_keeps_top_epoch (b : Broker) (ch : String) (s : MStream Pub)
+    (hst : (b.hub.chans ch).stream = some s) :
+    ((b.removeHistory ch).hub.chans ch).stream = some { s with items := [] } := by
+  unfold Broker.removeHistory Hub.remove
+  simp [hst, MStream.clear]
+
+/-- **an expired stream keeps its top offset and epoch; the stream (hence the epoch) disappears
+only when the metadata deadline has passed**: at a sweeper wake-up every channel's stream is
+unchanged, or cleared, or dropped — the latter only with a meta deadline `r ≤ now`. -/
+theorem tick_keeps_top_epoch (b : Broker) (n : Nat) (x : String) :
+    ((b.tick n).hub.chans x).stream = (b.hub.chans x).stream ∨
+    ((b.tick n).hub.chans x).stream = (b.hub.chans x).stream.map (fun s => { s with items := [] }) ∨
+    (((b.tick n).hub.chans x).stream = none ∧ ∃ r, (b.hub.chans x).removes = some r ∧ r ≤ n) := by
+  exact tick_stream b.hub n x
+
+/-- abstract-level consequence of a refinement step for one channel that exists before it -/
+theorem refines_channel (a a' : Abs Pub) (hi : a.Inv) (op : Op) (out : Out) (hr : Refines a op out a')
+    (x : String) (c : AbsChan Pub) (hc : a.chans x = some c) :
+    (∀ c', a'.chans x = some c' → c'.epoch = c.epoch ∧ c.top ≤ c'.top) ∧
+    (a'.chans x = none → ∃ n, op = .tick n) := by
+  cases op with
+  | publish ch data o now =>
+    cases out with
+    | pub po =>
+      simp only [Refines] at hr
+      rcases hr with ⟨_, _, ha, _⟩ | ⟨_, ha⟩
+      · subst ha
+        obtain ⟨_, h2, h3, _, _, h6⟩ := ensure_spec a hi ch
+        unfold Abs.append
+        by_cases hx : x = ch
+        · subst hx
+          rw [h6 c hc]
+          simp only [setChan_same]
+          exact ⟨by intro c' h; cases h; simp [AbsChan.append], by intro h; cases h⟩
+        · rw [setChan_other _ _ _ _ hx, h3 x hx, hc]
+          exact ⟨by intro c' h; cases h; simp, by intro h; cases h⟩
+      · subst ha; rw [hc]
+        exact ⟨by intro c' h; cases h; simp, by intro h; cases h⟩
+    | hist _ _ => simp [Refines] at hr
+    | ok => simp [Refines] at hr
+  | history ch f m now =>
+    cases out with
+    | hist pubs pos =>
+      simp only [Refines] at hr
+      obtain ⟨ha, _, _⟩ := hr
+      subst ha
+      obtain ⟨_, h2, h3, _, _, h6⟩ := ensure_spec a hi ch
+      unfold Abs.read
+      by_cases hx : x = ch
+      · subst hx; rw [h6 c hc, hc]
+        exact ⟨by intro c' h; cases h; simp, by intro h; cases h⟩
+      · simp only; rw [h3 x hx, hc]
+        exact ⟨by intro c' h; cases h; simp, by intro h; cases h⟩
+    | pub _ => simp [Refines] at hr
+    | ok => simp [Refines] at hr
+  | remove ch =>
+    cases out with
+    | ok =>
+      simp only [Refines] at hr
+      subst hr
+      unfold Abs.clear
+      by_cases hx : x = ch
+      · subst hx; rw [setChan_same, hc]
+        exact ⟨by intro c' h; cases h; simp [AbsChan.clear], by intro h; cases h⟩
+      · rw [setChan_other _ _ _ _ hx, hc]
+        exact ⟨by intro c' h; cases h; simp, by intro h; cases h⟩
+    | pub _ => simp [Refines] at hr
+    | hist _ _ => simp [Refines] at hr
+  | tick n =>
+    cases out with
+    | ok =>
+      simp only [Refines] at hr
+      obtain ⟨_, h⟩ := hr
+      refine ⟨?_, fun _ => ⟨n, rfl⟩⟩
+      intro c' hc'
+      rcases h x with e | e | e
+      · rw [e, hc] at hc'; cases hc'; simp
+      · rw [e, hc] at hc'; cases hc'; simp [AbsChan.clear]
+      · rw [e] at hc'; cases hc'
+    | pub _ => simp [Refines] at hr
+    | hist _ _ => simp [Refines] at hr
+
+/-- **the epoch changes only when the stream's metadata is discarded**: across any operation a
+channel that has a stream keeps its epoch and never loses offsets (`top` does not decrease); the
+stream can only vanish at a sweeper wake-up (and then, by `tick_keeps_top_epoch`, only after its
+meta deadline).  A stream created later gets a fresh epoch (`stored_publish_offset`,
+`history_no_stream`: the epoch counter's current value, larger than every epoch in use by `run_inv`). -/
+theorem epoch_changes_only_at_meta_expiry (b : Broker) (hi : b.hub.Inv) (op : Op) (x : String)
+    (s : MStream Pub) (hst : (b.hub.chans x).stream = some s) :
+    (∀ s', ((step b op).1.hub.chans x).stream = some s' → s'.epoch = s.epoch ∧ s.top ≤ s'.top) ∧
+    (((step b op).1.hub.chans x).stream = none → ∃ n, op = .tick n) := by
+  have hr := historyHub_refines_absStream b hi op
+  have hc : b.hub.abs.chans x = some (absS s) := by simp [Hub.abs, hst]
+  obtain ⟨h1, h2⟩ := refines_channel _ _ hi.2 op _ hr x (absS s) hc
+  constructor
+  · intro s' hs'
+    have : (step b op).1.hub.abs.chans x = some (absS s') := by simp [Hub.abs, hs']
+    simpa [absS] using h1 _ this
+  · intro hn
+    apply h2
+    simp [Hub.abs, hn]
+
+/-- epochs in use are below the counter, so a freshly created stream never reuses one -/
+theorem epochs_below_counter (metaTTL : Nat) (ops : List Op) (x : String) (s : MStream Pub)
+    (hst : ((run (Broker.init metaTTL) ops).hub.chans x).stream = some s) :
+    1 ≤ s.epoch ∧ s.epoch < (run (Broker.init metaTTL) ops).hub.nextEpoch := by
+  have hi := run_inv metaTTL ops
+  have := hi.2.1 x (absS s) (by simp [Hub.abs, hst])
+  exact ⟨this.2.1, this.2.2⟩
+
+/-! ## non-vacuity and counter-witnesses -/
+
+def demo : Broker := run (Broker.init 60000) [
+  .publish "a" "d1" { size := 2, ttl := 10000 } 500,
+  .publish "a" "d2" { size := 2, ttl := 10000 } 600,
+  .publish "a" "d3" { size := 2, ttl := 10000 } 700]
+
+/-- offsets 1, 2, 3; bounded to the last two -/
+example : ((demo.hub.chans "a").stream.map fun s => (s.top, s.epoch, s.items.map (·.offset))) =
+    some (3, 1, [2, 3]) := by decide
+example : (demo.history "a" { since := some ⟨2, 1⟩, limit := -1 } 0 800).2 =
+    ([⟨3, ⟨"d3", 0⟩⟩], ⟨3, 1⟩) := by decide
+example : (demo.history "a" { since := some ⟨4, 1⟩, limit := 1, reverse := true } 0 800).2 =
+    ([⟨3, ⟨"d3", 0⟩⟩], ⟨3, 1⟩) := by decide
+example : FilterOK 3 { since := some ⟨4, 1⟩, limit := 1, reverse := true } := by
+  simp [FilterOK, u64]
+/-- data expiry at second 10 keeps top and epoch; meta expiry at second 60 drops the stream; the
+next publication starts at offset 1 in epoch 2 -/
+example : (((demo.tick 10).hub.chans "a").stream.map fun s => (s.top, s.epoch, s.items.length)) =
+    some (3, 1, 0) := by decide
+example : (((demo.tick 10).tick 60).hub.chans "a").stream = none := by decide
+example : ((((demo.tick 10).tick 60).publish "a" "d4" { size := 2, ttl := 10000 } 61500).2.pos) = ⟨1, 2⟩ := by
+  decide
+
+/-- counter-witness 1 (finding C17-1): a forward read since offset 2^64−1 returns the whole retained
+stream — `since.Offset + 1` wraps to 0, the index misses, the walk starts at the front -/
+example : (demo.history "a" { since := some ⟨u64 - 1, 1⟩, limit := -1 } 0 800).2.1 =
+    [⟨2, ⟨"d2", 0⟩⟩, ⟨3, ⟨"d3", 0⟩⟩] := by decide
+example : (absS ((demo.hub.chans "a").stream.get (by decide))).read { since := some ⟨u64 - 1, 1⟩, limit := -1 } = [] := by
+  decide
+/-- counter-witness 2 (recorded quirk): a reverse read since an offset beyond `top + 1` returns
+nothing, although every retained offset is smaller -/
+example : (demo.history "a" { since := some ⟨9, 1⟩, limit := -1, reverse := true } 0 800).2.1 = [] := by decide
+example : (absS ((demo.hub.chans "a").stream.get (by decide))).read { since := some ⟨9, 1⟩, limit := -1, reverse := true } =
+    [⟨3, ⟨"d3", 0⟩⟩, ⟨2, ⟨"d2", 0⟩⟩] := by decide
+
+end CentrifugeVerif.HistoryHub
